@@ -7,8 +7,8 @@ from present import type_name
 
 MODEL_TARGETS = ["model/De.vo", "spec/Denote.vo"]
 COQ_TARGETS = ["props/C12.vo"]
-THEOREMS = [("C12", ["C12_skip", "C12_skip_as_read"])]
-PROOF_FILES = ["proofs/DeProofs.v", "proofs/DS1.v", "proofs/DS2.v", "proofs/DS3.v", "proofs/DS4.v", "proofs/DS5.v", "props/C12.v"]
+THEOREMS = [("C12", ["C12_skip", "C12_skip_as_read", "C12_struct_lacking_fields", "C12_fewer_fields_agree", "C12_map_ignored_values", "C12_union_unit_variant", "C12_blocks_jump"])]
+PROOF_FILES = ["proofs/DeProofs.v", "proofs/DS1.v", "proofs/DS2.v", "proofs/DS3.v", "proofs/DS4.v", "proofs/DS5.v", "props/C12.v", "proofs/DS6.v"]
 TRUSTED_BASE = [
     "Coq 8.16.1 kernel; no axioms (Print Assumptions: closed)",
     "spec/{AvroValue,Encoding,Denote,Wf}.v from the Avro specification: every legal encoding (any block split, negative counts with byte sizes) as encode_e of an evalue",
@@ -17,7 +17,7 @@ TRUSTED_BASE = [
 ]
 ASSUMPTIONS = [
     "proved (slice mode): IgnoredAny on ANY node consumes exactly the encoding of the value, for every legal encoding, and leaves the reader in the same state as reading it (C12_skip, C12_skip_as_read); reader mode follows with C11_de (same outcome and consumed bytes for every chunking)",
-    "the embedding lemmas (a struct lacking a field, an ignored map value, a unit variant over a union branch call exactly this skipping on exactly the sub-encoding) are proved for the struct visitor as lemma DS5.struct_loop_g; the top-level embedded statements are decided by the correspondence run (sentinel after the ignored part)",
+    "the embedded forms are proved too: a struct target with ANY subset of the record's fields (C12_struct_lacking_fields, C12_fewer_fields_agree), ignored map values, a unit variant for a union branch, and the jump over byte-size-prefixed blocks whose contents are never inspected (C12_blocks_jump)",
 ]
 
 def run(ctx):
